@@ -102,13 +102,14 @@ struct Axes {
 
 fn axes(tier: Tier) -> Axes {
     // both lerp segments of the surround (0-10 %, 10-20 %) with their three ends
-    let sur8 = vec![Sur::Average, Sur::Dim, Sur::Dark, Sur::Percent(0.0), Sur::Percent(5.0), Sur::Percent(10.0), Sur::Percent(15.0), Sur::Percent(20.0)];
+    // and the documented clamp beyond both ends (-5 % = dark, 25 % = average)
+    let sur8 = vec![Sur::Average, Sur::Dim, Sur::Dark, Sur::Percent(0.0), Sur::Percent(5.0), Sur::Percent(10.0), Sur::Percent(15.0), Sur::Percent(20.0), Sur::Percent(-5.0), Sur::Percent(25.0)];
     match tier {
         Tier::Quick => Axes { la: vec![40.0, 0.2, 318.0, 1000.0], yb: vec![0.2, 0.05, 0.9], sur: sur8, disc: vec![Disc::Auto, Disc::Custom(0.5), Disc::Custom(1.5)] },
         Tier::Thorough => {
             let mut sur = sur8;
             // off-centre points of both segments and the documented clamp at both ends
-            sur.extend([Sur::Percent(2.5), Sur::Percent(12.5), Sur::Percent(-5.0), Sur::Percent(25.0)]);
+            sur.extend([Sur::Percent(2.5), Sur::Percent(12.5), Sur::Percent(100.0), Sur::Percent(20.000001)]);
             Axes { la: vec![40.0, 0.2, 4.0, 64.0, 318.0, 1000.0, 0.01, 1e4], yb: vec![0.2, 0.05, 0.5, 0.9], sur, disc: vec![Disc::Auto, Disc::Custom(0.0), Disc::Custom(0.5), Disc::Custom(1.0), Disc::Custom(1.5)] }
         }
     }
